@@ -471,6 +471,7 @@ func genC30(t *Tape) *Plan {
 	g := NewGen(t, &k, "C30")
 	cfg := &g.plan.Cfg
 	GenSchedConfig(t, cfg)
+	cfg.TopicAliasMax = 4
 	for s := 0; s < k.Slots; s++ {
 		g.Connect(s)
 	}
@@ -500,7 +501,18 @@ func genC30(t *Tape) *Plan {
 			g.add(Op{Kind: "subscribe", Slot: slot, Pkt: p})
 		} else {
 			opIdx := len(g.plan.Ops)
-			g.add(Op{Kind: "publish", Slot: slot, Pkt: &refcodec.Packet{Type: refcodec.PUBLISH, Topic: str, Payload: fmt.Sprintf("m%d", opIdx)}})
+			p := &refcodec.Packet{Type: refcodec.PUBLISH, Topic: str, Payload: fmt.Sprintf("m%d", opIdx)}
+			if s.ver == 5 && t.Draw("c30.alias", 3) == 0 {
+				// the topic may also be named through an inbound alias: bound here, used alone by the next publish
+				if t.Draw("c30.aliastopic", 2) == 0 {
+					p.Topic = []string{"$SYS/x", "$SYS", "$SYS/broker/uptime", "a/b", "$x/y"}[t.Draw("c30.aliaswhich", 5)]
+				}
+				p.Props = append(p.Props, refcodec.Prop{ID: refcodec.PTopicAlias, Int: 1})
+				g.add(Op{Kind: "publish", Slot: slot, Pkt: p})
+				opIdx = len(g.plan.Ops)
+				p = &refcodec.Packet{Type: refcodec.PUBLISH, Topic: "", Payload: fmt.Sprintf("m%d", opIdx), Props: refcodec.Props{{ID: refcodec.PTopicAlias, Int: 1}}}
+			}
+			g.add(Op{Kind: "publish", Slot: slot, Pkt: p})
 		}
 	}
 	g.plan.Ops[len(g.plan.Ops)-1].Concurrent = false
@@ -516,6 +528,7 @@ func checkC30(r *Result) []Violation {
 			obs = c
 		}
 	}
+	aliasBound := map[int]map[uint32]string{} // per connection: inbound topic alias -> topic last bound to it
 	for _, c := range r.Ex.Conns {
 		if c == obs {
 			continue
@@ -578,11 +591,28 @@ func checkC30(r *Result) []Violation {
 				if obs == nil || s.P.Payload == "" {
 					continue
 				}
+				// the topic the publish means: its own, or the one last bound to its alias on this connection
+				topic := s.P.Topic
+				if ap, has := s.P.Props.Get(refcodec.PTopicAlias); has {
+					if topic == "" {
+						topic = aliasBound[c.Idx][ap.Int]
+					} else {
+						if aliasBound[c.Idx] == nil {
+							aliasBound[c.Idx] = map[uint32]string{}
+						}
+						aliasBound[c.Idx][ap.Int] = topic
+					}
+				}
+				s = SentRec{P: &refcodec.Packet{Type: refcodec.PUBLISH, Topic: topic, Payload: s.P.Payload}, Seq: s.Seq, Op: s.Op}
 				valid := s.P.Topic != "" && refmatch.ValidPublishTopic(s.P.Topic)
 				routed := false
 				for _, pr := range obs.Pkts {
 					if pr.P.Type == refcodec.PUBLISH && payloadIDOf(pr.P.Payload) == payloadIDOf(s.P.Payload) {
 						routed = true
+						if pr.P.Topic != "" && !refmatch.ValidPublishTopic(pr.P.Topic) {
+							valid = false // whatever the publisher wrote, it arrived on a topic clients may not publish to
+							s.P.Topic = pr.P.Topic
+						}
 					}
 				}
 				// the observer can only see topics its filters match
